@@ -56,6 +56,10 @@ pub struct Multi {
     pub stalled_turns: u32,
     /// a command whose reply has not arrived yet holds back every command the server read after it (runs with transient I/O outcomes)
     pub strict_stall: bool,
+    /// the transport's global event number when the current server turn began
+    pub turn_start_seq: u64,
+    /// clients whose blocking command was answered in the current turn
+    pub unblocked_now: BTreeSet<usize>,
     /// a mismatch was found in this turn: the rest of the turn's commands are not judged, the model is re-synchronised at the end of the turn
     pub poisoned: bool,
     pub eval_in_turn: bool,
@@ -72,7 +76,7 @@ pub fn upper(a: &[u8]) -> String { String::from_utf8_lossy(a).to_uppercase() }
 impl Multi {
     pub fn new(h: H, prop: &str) -> Multi {
         Multi { h, model: Model::new(), prop: prop.to_string(), cl: BTreeMap::new(), turn_no: 0, block_seq: 0, tag_seq: 0, history: Vec::new(), served: Vec::new(),
-                compare_dumps: true, strict_exec_replies: true, lenient_eval: true, stalled_turns: 0, strict_stall: false, poisoned: false, eval_in_turn: false, eval_dbs: BTreeSet::new(), scripts: BTreeMap::new(), select_in_exec: false }
+                compare_dumps: true, strict_exec_replies: true, lenient_eval: true, stalled_turns: 0, strict_stall: true, turn_start_seq: 0, unblocked_now: BTreeSet::new(), poisoned: false, eval_in_turn: false, eval_dbs: BTreeSet::new(), scripts: BTreeMap::new(), select_in_exec: false }
     }
     pub fn connect(&mut self, c: usize) {
         let sim = self.h.connect(c, self.h.inst, 0);
@@ -107,9 +111,13 @@ impl Multi {
 
     /// One server turn, then feed everything the server executed in it to the model, in execution order.
     pub fn turn(&mut self) -> TurnOutcome {
+        self.turn_start_seq = g().evseq;
         let o = self.h.turn();
         self.turn_no += 1;
         self.reconcile();
+        // a reply that is still on its way through the socket (a long backlog leaves in pieces) is not a missing reply:
+        // only turns without any I/O count towards "stalled"
+        if let TurnOutcome::Turn { io, .. } = o { if io > 0 && self.stalled_turns > 0 { self.stalled_turns -= 1; } }
         o
     }
     pub fn turns(&mut self, n: u32) { for _ in 0..n { if self.h.dead.is_some() { break; } self.turn(); } }
@@ -117,53 +125,83 @@ impl Multi {
     /// Run turns until nothing is in flight and two turns in a row were idle.
     pub fn settle(&mut self, max: u32) -> bool {
         let mut idle = 0;
-        for _ in 0..max {
-            match self.turn() { TurnOutcome::Turn { io, shard, .. } => { let inflight = self.cl.values().any(|c| !c.gone && !c.inflight.is_empty() && c.blocked.is_none()); if io == 0 && shard == 0 && !inflight { idle += 1; if idle >= 2 { return true; } } else { idle = 0; } } _ => return false }
+        // `max` bounds the turns without I/O; a long pipeline or reply backlog that is still moving gets the turns it needs
+        let (mut quiet, mut total) = (0u32, 0u32);
+        while quiet < max && total < 4000 {
+            total += 1;
+            match self.turn() { TurnOutcome::Turn { io, shard, .. } => { if io == 0 { quiet += 1; } let inflight = self.cl.values().any(|c| !c.gone && !c.inflight.is_empty() && c.blocked.is_none()); if io == 0 && shard == 0 && !inflight { idle += 1; if idle >= 2 { return true; } } else { idle = 0; } } _ => return false }
         }
         false
+    }
+
+    /// Feed to the model the requests the server has consumed (all of them, or only those it read before the current turn
+    /// began), in the order in which it read them. Returns true if one of them is still waiting for its reply.
+    fn run_ready(&mut self, read_before: Option<u64>) -> bool {
+        let mut ready: Vec<(u64, u64, usize)> = Vec::new(); // (recv seq, end_off, client)
+        let mut late: Vec<usize> = Vec::new();
+        for (c, cl) in self.cl.iter() {
+            if cl.gone { continue; }
+            // what a client sent behind a blocking command that is still waiting is carried out only after that
+            // command has been answered (replies go out in request order)
+            if cl.blocked.is_some() { continue; }
+            let conn = self.h.sim.clients[cl.sim].conn;
+            let log = &g().conns[conn];
+            if read_before.is_none() && self.unblocked_now.contains(c) && cl.inflight.front().map_or(false, |inf| inf.end_off <= log.consumed) { late.push(*c); }
+            for inf in cl.inflight.iter() {
+                if inf.end_off <= log.consumed {
+                    let rec = log.recvs.iter().find(|r| r.upto >= inf.end_off).copied().unwrap_or_default();
+                    if read_before.map_or(true, |s| rec.seq <= s) { ready.push((rec.seq, inf.end_off, *c)); } else { break; }
+                }
+            }
+        }
+        ready.sort();
+        if read_before.is_none() {
+            // requests that waited behind a blocking command run when their connection's turn comes, which the order in which
+            // they were read long ago does not tell: if anybody else acted in this turn too, the model is re-read afterwards
+            // (requests without effect whose reply does not depend on the dataset - ECHO, PING - can run anywhere)
+            let stateless = |m: &Multi, c: &usize| m.cl[c].inflight.iter().all(|i| matches!(upper(&i.args[0]).as_str(), "ECHO" | "PING"));
+            if !late.is_empty() && ready.iter().any(|(_, _, c)| !late.contains(c)) && !late.iter().all(|c| stateless(self, c)) { self.poisoned = true; self.h.count("deferred_requests_order_unknown", 1); }
+            if !late.is_empty() { self.h.count("deferred_requests_after_unblock", 1); }
+            self.unblocked_now.clear();
+        }
+        let mut stalled = false;
+        let mut stalled_clients: BTreeSet<usize> = BTreeSet::new();
+        for (_, _, c) in ready {
+            if stalled_clients.contains(&c) { continue; }
+            if self.cl[&c].blocked.is_some() { continue; } // (it has just blocked: what it sent behind that command waits)
+            let inf = self.cl[&c].inflight.front().cloned().unwrap();
+            if !self.execute(c, &inf) { stalled = true; stalled_clients.insert(c); /* its reply has not arrived yet: later commands of this client wait */ if self.strict_stall { break; /* ... and so does everything the server ran after it */ } }
+        }
+        stalled
     }
 
     fn reconcile(&mut self) {
         self.eval_in_turn = false;
         self.eval_dbs.clear();
-        // 1. replies for clients that were blocked before this turn: element deliveries first (the server
-        //    processes its wake-up queue at the top of the turn), timeouts after the commands.
-        let mut blocked_ids: Vec<usize> = self.cl.iter().filter(|(_, c)| c.blocked.is_some() && !c.gone).map(|(k, _)| *k).collect();
-        // the server serves waiters in the order in which they blocked
-        blocked_ids.sort_by_key(|c| self.cl[c].blocked.as_ref().map(|b| b.order).unwrap_or(0));
+        // 0. what the server ran in an earlier turn but whose replies had not all arrived when that turn ended (a long reply
+        //    leaves in pieces): before anything that happened in this turn
+        let mut stalled = self.run_ready(Some(self.turn_start_seq));
         let mut timeouts: Vec<usize> = Vec::new();
-        for c in blocked_ids {
-            let sim = self.cl[&c].sim;
-            if let Some(rep) = self.h.cs[sim].replies.front().cloned() {
-                match &rep {
-                    R::NilArr | R::Nil => { timeouts.push(c); }
-                    _ => { self.h.cs[sim].replies.pop_front(); self.deliver_blocked(c, rep); }
+        if !stalled {
+            // 1. replies for clients that were blocked before this turn: element deliveries first (the server
+            //    processes its wake-up queue at the top of the turn), timeouts after the commands.
+            let mut blocked_ids: Vec<usize> = self.cl.iter().filter(|(_, c)| c.blocked.is_some() && !c.gone).map(|(k, _)| *k).collect();
+            // the server serves waiters in the order in which they blocked
+            blocked_ids.sort_by_key(|c| self.cl[c].blocked.as_ref().map(|b| b.order).unwrap_or(0));
+            for c in blocked_ids {
+                let sim = self.cl[&c].sim;
+                if let Some(rep) = self.h.cs[sim].replies.front().cloned() {
+                    match &rep {
+                        R::NilArr | R::Nil => { timeouts.push(c); }
+                        _ => { self.h.cs[sim].replies.pop_front(); self.deliver_blocked(c, rep); }
+                    }
                 }
             }
-        }
-        // requests of clients that went away before their reply could be read: executed by the server, verdict-less here
-        let gone_ids: Vec<usize> = self.cl.iter().filter(|(_, c)| c.gone && !c.inflight.is_empty()).map(|(k, _)| *k).collect();
-        for c in gone_ids { self.cl.get_mut(&c).unwrap().inflight.clear(); self.poisoned = true; }
-        // 2. commands executed in this turn, in the order the server read the connections
-        let mut ready: Vec<(u64, u64, usize)> = Vec::new(); // (recv seq, end_off, client)
-        for (c, cl) in self.cl.iter() {
-            if cl.gone { continue; }
-            let conn = self.h.sim.clients[cl.sim].conn;
-            let log = &g().conns[conn];
-            for inf in cl.inflight.iter() {
-                if inf.end_off <= log.consumed {
-                    let rec = log.recvs.iter().find(|r| r.upto >= inf.end_off).copied().unwrap_or_default();
-                    ready.push((rec.seq, inf.end_off, *c));
-                }
-            }
-        }
-        ready.sort();
-        let mut stalled = false;
-        let mut stalled_clients: BTreeSet<usize> = BTreeSet::new();
-        for (_, _, c) in ready {
-            if stalled_clients.contains(&c) { continue; }
-            let inf = self.cl[&c].inflight.front().cloned().unwrap();
-            if !self.execute(c, &inf) { stalled = true; stalled_clients.insert(c); /* its reply has not arrived yet: later commands of this client wait */ if self.strict_stall { break; /* ... and so does everything the server ran after it */ } }
+            // requests of clients that went away before their reply could be read: executed by the server, verdict-less here
+            let gone_ids: Vec<usize> = self.cl.iter().filter(|(_, c)| c.gone && !c.inflight.is_empty()).map(|(k, _)| *k).collect();
+            for c in gone_ids { self.cl.get_mut(&c).unwrap().inflight.clear(); self.poisoned = true; }
+            // 2. commands executed in this turn, in the order the server read the connections
+            stalled = self.run_ready(None);
         }
         if stalled { self.stalled_turns += 1; } else { self.stalled_turns = 0; }
         // 3. timeouts of blocked clients
@@ -172,6 +210,19 @@ impl Multi {
             let sim = self.cl[&c].sim;
             self.h.cs[sim].replies.pop_front();
             self.timeout_blocked(c);
+            // what it had sent behind the blocking command has been carried out in this same turn, when its connection's turn
+            // came - where among the others' requests is not known: no verdicts, and the model is re-read afterwards
+            if !self.cl[&c].inflight.is_empty() {
+                if !self.cl[&c].inflight.iter().all(|i| matches!(upper(&i.args[0]).as_str(), "ECHO" | "PING")) { self.poisoned = true; }
+                self.unblocked_now.clear();
+                loop {
+                    let conn = self.h.sim.clients[self.cl[&c].sim].conn;
+                    let consumed = g().conns[conn].consumed;
+                    let inf = match self.cl[&c].inflight.front() { Some(i) if i.end_off <= consumed => i.clone(), _ => break };
+                    if self.cl[&c].blocked.is_some() { break; }
+                    if !self.execute(c, &inf) { stalled = true; break; }
+                }
+            }
         }
         if self.poisoned {
             if !stalled { self.resync(); self.poisoned = false; }
@@ -180,6 +231,7 @@ impl Multi {
 
     fn deliver_blocked(&mut self, c: usize, rep: R) {
         let b = match self.cl.get_mut(&c).and_then(|x| x.blocked.take()) { Some(b) => b, None => return };
+        self.unblocked_now.insert(c);
         let now = self.h.sim.now();
         let (key, elem) = match &rep { R::Arr(v) if v.len() == 2 => match (&v[0], &v[1]) { (R::Bulk(k), R::Bulk(e)) => (k.clone(), e.clone()), _ => (vec![], vec![]) }, _ => (vec![], vec![]) };
         self.h.note(format!("c{} (blocked) served {} <- {}", c, resp::escape(&key), resp::escape(&elem)));
